@@ -66,6 +66,16 @@ int gd_alter_protection(DIRFILE *D, int protection_level, int fragment_index)
   else if (protection_level != D->fragment[fragment_index].protection) {
     D->fragment[fragment_index].protection = protection_level;
     D->fragment[fragment_index].modified = 1;
+
+  /* A fragment included by this one inherits this setting when it is parsed,
+   * unless it spells out its own: write the children out as well, so that they
+   * keep the setting they have now. */
+  {
+    int child;
+    for (child = 0; child < D->n_fragment; ++child)
+      if (child != fragment_index && D->fragment[child].parent == fragment_index)
+        D->fragment[child].modified = 1;
+  }
   }
 
   dreturn("%i", 0);
